@@ -79,6 +79,8 @@ PMTilesValid(L) ==
 PMTilesClusteredTruthful(L) == L.clustered = 1 => L.offsets_ascending_by_id = 1
 
 (***************************** judging a case *****************************)
+RECURSIVE FlattenRes(_)
+FlattenRes(ss) == IF ss = <<>> THEN <<>> ELSE Head(ss).res \o FlattenRes(Tail(ss))
 Fails(name, ok) == IF ok THEN {} ELSE {name}
 
 \* C01 / C16 reader side + independent decoding of the file
@@ -99,6 +101,10 @@ RoundTripFails(r) ==
     Fails("params", r.opened.ok = 0 \/ (r.opened.tc = r.tc /\ r.opened.tf = Declared(fmt, r.tf))) \cup
     \* ... returns exactly the source payload for every source coordinate
     Fails("lookup", r.opened.ok = 0 \/ r.lookups = tiles) \cup
+    \* ... a conversion-style read-back (streams over the ADVERTISED coverage, level by level) yields exactly the source
+    Fails("walk_coverage", r.opened.ok = 0 \/ r.walk = 0 \/
+            ( /\ \A i \in 1..Len(r.streams) : r.streams[i].status = "ok"
+              /\ FlattenRes(r.streams) = tiles )) \cup
     \* ... and nothing anywhere else
     Fails("extra", r.opened.ok = 0 \/
             \A i \in 1..Len(r.absent) : LET a == r.absent[i] IN <<a[1], a[2], a[3]>> \in Coords(tiles) \/ a[4] = 0)
